@@ -134,7 +134,10 @@ func (p *Path) TreePrefix() string {
 		case p.relativePath != "":
 			return p.relativePath + "/"
 		default:
-			return "???"
+			// No referrer was recorded for this tree (for example
+			// because it is only reachable via an annotated tag),
+			// so it has to be named by its OID:
+			return p.OID.String() + ":"
 		}
 	case "commit", "tag":
 		switch {
